@@ -726,3 +726,12 @@ fn replay(_opts: &Opts, d: &Value, acc: &mut Acc) {
         _ => acc.inconclusive.push(format!("unknown C02 replay kind {:?}", kind)),
     }
 }
+
+/// libFuzzer entry: first byte selects the tree-shape or the evaluation sub-check
+pub fn fuzz_case(genome: &[u8], acc: &mut Acc) -> Vec<Failure> {
+    match genome.first().map(|b| b % 2) {
+        Some(0) => check_tree(&genome[1..], "fuzz", acc),
+        Some(_) => check_eval(&genome[1..], "fuzz", acc),
+        None => vec![],
+    }
+}
